@@ -33,7 +33,7 @@ CHECKS["C16"] = {
 CHECKS["C07"] = {
     "text": "Proof of the mechanism (Verus, real code of conditional.rs extracted each run): \\ifodd == TeX odd(n) for every i32 incl. negatives; \\ifnum == the three relations (and the relation scanner itself, Ordering::parse_impl == TeX 503, is proved in unit texlang_parse_int); false_case, \\ifcase, \\or and \\else consume exactly the prefix TeX's pass_text (TeX.2021.494, nesting counted by command TAG so \\let aliases count, braces ignored) says - proved for every token sequence and every integer case number (negative / out of range selects \\else or \\fi), deliver nothing, and push/pop exactly the right branch record; \\or/\\else/\\fi validity against the branch stack; termination and absence of overflow. expansion.rs: the simple and the optimised \\expandafter are both proved to leave exactly `t1 + (one expansion step of the rest)` - the same postcondition, TeX.2021.368 - for every token sequence and every length of \\expandafter chain.",
     "design_ref": "DESIGN.md §5 C07",
-    "note": "\\noexpand is not decided. The \\expandafter proofs rest on a trusted model of expand_once (one expansion step on the first pending token, uninterpreted for every command except \\expandafter); a bounded driver (42856 strings, both implementations against a transcription of TeX's rule in the real VM) checks that model from outside. Assumed: the stream model (next_or_err pops the head of the pending sequence), Parsable stubs, get_tag returns the aliased command's tag, the four tags are distinct.",
+    "note": "\\noexpand: the hook (noexpand_hook / noexpand_hook_finish) is proved, the VM's delivery of the suppressed token (streams.rs) is not decided. The \\expandafter proofs rest on a trusted model of expand_once (one expansion step on the first pending token, uninterpreted for every command except \\expandafter); a bounded driver (42856 strings, both implementations against a transcription of TeX's rule in the real VM) checks that model from outside. Assumed: the stream model (next_or_err pops the head of the pending sequence), Parsable stubs, get_tag returns the aliased command's tag, the four tags are distinct.",
     "technique": "contract-based deductive verification (Verus loop invariants against a recursive spec of TeX's pass_text)",
 }
 
